@@ -4,7 +4,7 @@ import uuid
 from datetime import date, datetime, time, timedelta, timezone
 from decimal import Decimal
 from enum import Enum
-from typing import Dict, FrozenSet, List, Optional, Set, Tuple
+from typing import Any, Dict, FrozenSet, List, Optional, Set, Tuple
 
 from utype import Field, Schema, exc
 from utype.utils.encode import JSONEncoder
@@ -49,6 +49,12 @@ class Mixed(Enum):
     N = 'ONE'
 
 
+class Ratio(Enum):
+    tenth = 0.1
+    half = 0.5
+    third = 1 / 3
+
+
 class Inner(Schema):
     x: int
     when: Optional[datetime] = None
@@ -75,6 +81,10 @@ class RT(Schema):
     li: List[int] = Field(default_factory=list)
     se: Set[int] = Field(default_factory=set)
     fz: FrozenSet[int] = Field(default_factory=frozenset)
+    ul: list = Field(default_factory=list)
+    ud: dict = Field(default_factory=dict)
+    an: Any = None
+    rt: Ratio = Ratio.half
     ses: Set[Shade] = Field(default_factory=set)
     son: Set[Optional[int]] = Field(default_factory=set)
     sd: Set[date] = Field(default_factory=set)
@@ -155,10 +165,12 @@ def scalars(V):
         roundtrip(V, 'f', V.pick('f', [0.0, -0.0, 1.5, -2.25, 1e-7, 1e22, 1.7976931348623157e308, 5e-324, 0.1, 1 / 3, float('inf'),
                                         float('-inf')]), 'float')
     elif k == 'bytes':
-        roundtrip(V, 'by', V.pick('by', [b'', b'a', b'ab\n', 'é'.encode(), '雪'.encode(), b'"q"', b'\\', b'\x00', b'null', b'1']), 'bytes')
+        roundtrip(V, 'by', V.pick('by', [b'', b'a', b'ab\n', 'é'.encode(), '雪'.encode(), b'"q"', b'\\', b'\x00', b'null', b'1', b'\xef\xbb\xbfbom', b'a\xef\xbb\xbf', '\ufeff'.encode()]), 'bytes')
     elif k == 'enum':
-        which = V.pick('enum', ['level', 'shade', 'swap', 'num', 'mixed'])
-        if which == 'swap':
+        which = V.pick('enum', ['level', 'shade', 'swap', 'num', 'mixed', 'ratio'])
+        if which == 'ratio':
+            roundtrip(V, 'rt', V.pick('rt', [Ratio.tenth, Ratio.half, Ratio.third]), 'enum')
+        elif which == 'swap':
             roundtrip(V, 'sw', V.pick('sw', [Swap.A, Swap.B, Swap.C]), 'enum')
         elif which == 'num':
             roundtrip(V, 'num', V.pick('num', [Num.one, Num.two]), 'enum')
@@ -282,11 +294,22 @@ WHEN = [None, datetime(2020, 1, 2, 3, 4, 5), datetime(2020, 1, 2, 3, 4, 5, 12000
     bounds='List[int], Set[int], Set[Enum], Set[Optional[int]], Set[date], Tuple[int,str], Dict[str,int] of <= 2 solver ints / picked strings; nested data class with an int '
            'and an optional datetime (naive or negative / positive offset); list of nested; List[datetime]; Dict[str, timedelta]')
 def containers(V):
-    k = V.pick('kind', ['list', 'set', 'tuple', 'dict', 'nested', 'kids', 'datetimes', 'durations', 'set-of-enum', 'set-of-optional', 'set-of-date'])
+    k = V.pick('kind', ['list', 'set', 'tuple', 'dict', 'nested', 'kids', 'datetimes', 'durations', 'set-of-enum', 'set-of-optional', 'set-of-date',
+                        'untyped'])
     n = V.pick('n', [0, 1, 2])
     ints = [V.concrete('x%d' % i, V.int('x%d' % i, -5, 5)) for i in range(n)]
     when = V.pick('when', WHEN)
-    if k == 'list':
+    if k == 'untyped':
+        # fields without a declared element type: what the text says is what comes back (a float stays a float)
+        u = V.pick('untyped', ['list', 'dict', 'any'])
+        fl = V.pick('float', [0.1, 0.5, 1e-7, 2.5, 1 / 3])
+        if u == 'list':
+            roundtrip(V, 'ul', lambda: [fl] + list(ints) + ['s', None, True], 'list')
+        elif u == 'dict':
+            roundtrip(V, 'ud', lambda: {'k': fl, 'n': list(ints), 'z': None}, 'dict')
+        else:
+            roundtrip(V, 'an', lambda: fl if n == 0 else [fl, {'k': fl}], 'list')
+    elif k == 'list':
         roundtrip(V, 'li', lambda: list(ints), 'list')
     elif k == 'set':
         if V.bool('frozen'):
